@@ -64,6 +64,11 @@ SeededVerdict(e) ==
      ELSE IF e.gen = "BarabasiAlbert_igraph" /\ NLinks(e.A1) > e.m * n THEN R("LinkCount")
      ELSE IF e.gen = "Configuration" /\ ~(\A k \in 1..n : DegreeSeq(e.A1)[k] <= e.deg[k]) THEN R("DegreesBounded")
      ELSE IF e.gen = "randomly_rewire" /\ DegreeSeq(e.A1) # DegreeSeq(e.A0) THEN R("DegreePreserved")
+     \* a chain of degree-preserving randomisations on one object: after EVERY step a simple graph on the same
+     \* nodes with the degree sequence (hence the link count) it started with
+     ELSE IF e.gen = "chain" /\ ~(Len(e.steps) = 3 /\ \A k \in 1..Len(e.steps) :
+                                   Len(e.steps[k]) = n /\ Simple(e.steps[k]) /\ DegreeSeq(e.steps[k]) = DegreeSeq(e.A0))
+          THEN R("DegreePreserved")
      ELSE IF e.gen \in {"RandomlySetCrossLinks", "RandomlySetCrossLinks_sparse"} /\ e.mode = "count" /\
              ~(/\ Block(e.A1, 1, e.n1, 1, e.n1) = Block(e.A0, 1, e.n1, 1, e.n1)
                /\ Block(e.A1, e.n1 + 1, n, e.n1 + 1, n) = Block(e.A0, e.n1 + 1, n, e.n1 + 1, n)
